@@ -25,6 +25,25 @@ def check(ctx):
             num = math.gamma(1 + beta) * math.sin(math.pi * beta / 2)
             den = math.gamma((1 + beta) / 2) * beta * (2 ** ((beta - 1) / 2))
             return g1 * ((num / den) ** (1 / beta)) / np.fabs(g2) ** (1 / beta)
+        # very small exponents: |v| ** (1 / beta) underflows to 0 for ordinary draws; Mantegna's quotient is then +-inf (or NaN),
+        # and that is what the function returns
+        with np.errstate(all='ignore'):
+            for beta in (0.01, 0.005, 0.02, 0.003):
+                for q in range(6):
+                    np.random.seed(900 + q)
+                    step = d.generate_levy_distribution(beta, 5)
+                    np.random.seed(900 + q)
+                    g1 = np.random.normal(0.0, 1.0, 5)
+                    g2 = np.random.normal(0.0, 1.0, 5)
+                    num = math.gamma(1 + beta) * math.sin(math.pi * beta / 2)
+                    den = math.gamma((1 + beta) / 2) * beta * (2 ** ((beta - 1) / 2))
+                    ref = g1 * ((num / den) ** (1 / beta)) / np.fabs(g2) ** (1 / beta)
+                    same = all((a == b) or (a != a and b != b) or (abs(a - b) <= 1e-9 * abs(b) if np.isfinite(a) and np.isfinite(b) else False)
+                               for a, b in zip(np.asarray(step, dtype=float).tolist(), ref.tolist()))
+                    if not same:
+                        C.issue('levy-not-mantegna', 'oracle', dict(how='levy-small-beta', beta=beta, seed=900 + q), got=np.asarray(step).tolist(), reference=ref.tolist())
+                        break
+                C.case(key=('levy-small-beta', beta), nontrivial=True, kind='levy-small-beta')
         for seq in ([1.5, 0.8, 1.5, 0.8, 2.0, 1.5], [0.3, 0.3 + 1e-12, 0.3, 1.0, 0.3]):
             rp = dict(how='levy-sequence', betas=seq)
             for q, beta in enumerate(seq):
